@@ -131,6 +131,7 @@ type vC08Deleg struct {
 	target int      // server id the glue points to
 	active bool
 	noGlue bool
+	bare   int // the last `bare` NS hosts are published without glue (a partly glue-less NS set)
 }
 
 type vC08LogEnt struct {
@@ -267,7 +268,7 @@ func (w *vC08World) answer(s *vC08Srv, r *dns.Msg) *dns.Msg {
 		for i, ttl := range d.nsTTL {
 			host := fmt.Sprintf("ns%d.%s", i, dz)
 			reply.Ns = append(reply.Ns, &dns.NS{Hdr: dns.RR_Header{Name: dz, Rrtype: dns.TypeNS, Class: dns.ClassINET, Ttl: ttl}, Ns: host})
-			if !d.noGlue {
+			if !d.noGlue && i < len(d.nsTTL)-d.bare {
 				reply.Extra = append(reply.Extra, &dns.A{Hdr: dns.RR_Header{Name: host, Rrtype: dns.TypeA, Class: dns.ClassINET, Ttl: ttl}, A: net.ParseIP(tgt.glue)})
 			}
 		}
@@ -327,8 +328,12 @@ func (w *vC08World) answer(s *vC08Srv, r *dns.Msg) *dns.Msg {
 	switch {
 	case q.Qtype == dns.TypeA && name != s.zone:
 		reply.Authoritative = true
+		addr := net.IPv4(10, byte(s.id), 0, 1)
+		if strings.HasPrefix(first, "ns") {
+			addr = net.ParseIP(s.glue) // a nameserver host of the zone: the address its glue would carry
+		}
 		reply.Answer = []dns.RR{&dns.A{Hdr: dns.RR_Header{Name: q.Name, Rrtype: dns.TypeA, Class: dns.ClassINET, Ttl: s.ansTTL},
-			A: net.IPv4(10, byte(s.id), 0, 1)}}
+			A: addr}}
 		ent.kind, ent.ansTTL = vC08RespAnswer, s.ansTTL
 	case q.Qtype == dns.TypeNS && name == s.zone:
 		reply.Authoritative = true
